@@ -13,12 +13,12 @@ CONSTANTS
   NPeer = 10
   MaxData = 2
   CallKinds = {"poll_response", "poll_data", "poll_trailers", "poll_capacity", "poll_reset", "poll_ready"}
-  AppKinds = {"request", "request_keep", "reserve", "send_data", "drop_recv"}
+  AppKinds = {"request", "request_keep", "reserve", "send_data", "drop_recv", "drop_send", "drop_sr"}
   PeerKinds = {"HEADERS", "DATA", "WU", "SET_MAXC", "GOAWAY", "EOF"}
   IwsVals = {0, 1, 2}
   MaxcVals = {0, 1, 2}
   ReqEos = {FALSE, TRUE}
-  Allow = {"shared_slot", "reset_after_end", "push_after_recv_drop"}
+  Allow = {"shared_slot", "reset_after_end", "push_after_recv_drop", "cancel_pending_open"}
   ExportLen = 30
 ACTION_CONSTRAINT Drained
 ACTION_CONSTRAINT LateEnd
